@@ -60,6 +60,9 @@ func VisitProtoBytesFields(r io.Reader, visitor ProtoBytesFieldVisitor) error {
 		if nTag < 0 {
 			return StatusWrapfWithCode(protowire.ParseError(nTag), codes.InvalidArgument, "Field at offset %d has an invalid tag", offsetBytes)
 		}
+		if fieldNumber > protowire.MaxValidNumber {
+			return status.Errorf(codes.InvalidArgument, "Field at offset %d has number %d, which exceeds the maximum of %d", offsetBytes, fieldNumber, protowire.MaxValidNumber)
+		}
 		if fieldType != protowire.BytesType {
 			return status.Errorf(codes.InvalidArgument, "Field with number %d at offset %d has type %d, while %d was expected", fieldNumber, offsetBytes, fieldType, protowire.BytesType)
 		}
